@@ -44,6 +44,8 @@ def gen_cfg(rng, real_frac=0.06, allow_long=True, engines=None):
             cfg["steps"] = rng.randint(4, 9)
         cfg["rotate"] = rng.randrange(1 << 30)
         cfg["scf_eps"] = 1.0e-8
+        if eng in ("basic", "langevin") and rng.random() < 0.35:
+            cfg["uhf"] = True  # unrestricted BOMD/Langevin (XL-BOMD refuses unrestricted densities loudly)
     else:
         cfg["batch"] = rng.choice(STUB_BATCHES)
         cfg["steps"] = rng.randint(4, 40)
